@@ -91,6 +91,7 @@ def litmus_shapes():
     add("W+RWC", [[st("x", 1), st("z", 1, "rel")], [ld("z", "acq"), fence("sc"), ld("y")],
                   [st("y", 1), fence("sc"), ld("x")]])
     add("fence-mo", [[st("x", 1), fence("sc"), ld("y")], [st("y", 1), fence("sc"), st("x", 2)]], ["x"])
+    add("F16-rmw-before-executed-store", [[st("z", 1), st("y", 1), ld("z")], [ld("y", "acq"), swap("z", 2, "rel")]], ["z"])
     return out
 
 
@@ -172,6 +173,19 @@ def q_mo(p):
     return False
 
 
+def q_f16(p):
+    """Quarantine predicate of the open finding F16 (an RMW always reads the latest executed store):
+    a location with a plain store in one thread and an RMW / CAS in another."""
+    st_t, rmw_t = {}, {}
+    for t, th in enumerate(p["threads"]):
+        for i in th:
+            if i["op"] == "st":
+                st_t.setdefault(i["o"], set()).add(t)
+            elif i["op"] in ("rmw", "cas"):
+                rmw_t.setdefault(i["o"], set()).add(t)
+    return any(st_t.get(x, set()) - {t} for x, ts in rmw_t.items() for t in ts)
+
+
 def litmus(tier, seed, avoid=()):
     """enumerated core + seeded random tail; `avoid`: quarantine predicates applied to the tail only"""
     rng = random.Random(seed * 7919 + 1)
@@ -231,6 +245,7 @@ class SyncGen:
         # per atomic: "owner:<t>" (only thread t writes) or "rmw" (everybody writes, RMWs only)
         self.policy = {x: rng.choice(["rmw"] + [f"owner:{t}" for t in range(1, nspawn + 2)]) for x in ("x", "y")}
         self.cur_t = 1
+        self.unpark_targets = set()
 
     def val(self, o):
         self.nextv[o] = self.nextv.get(o, 0) + 1
@@ -325,6 +340,8 @@ class SyncGen:
                 if "arc" in self.feats and t in arc_threads and t not in dropped: c += ["acount", "aclone", "agetmut"]
                 if "cell" in self.feats and "mutex" not in self.feats and "rw" not in self.feats: c.append("cell")
                 if "yield" in self.feats: c.append("yield")
+                if self.safe and t in self.unpark_targets:
+                    c = [w for w in c if w in ("atom", "park", "unpark", "cell")]
                 if not c:
                     break
                 w = rng.choice(c)
@@ -368,9 +385,14 @@ class SyncGen:
                     if self.safe:
                         # only threads generated so far (lower index) that block nowhere but in park
                         targets = [j for j in targets if j != 1 and j in tbs and j < t or (t == 1 and j != 1)]
-                        targets = [j for j in targets if not any(i["op"] in BLOCKING_OPS - {"park"} for i in tbs[j].code)]
+                        # ... and touch nothing whose wake-up loops reset the token (locks, channels, notify, yield)
+                        ok_ops = {"park", "unpark", "ld", "st", "rmw", "cas", "fence", "rd", "wr", "br", "nop"}
+                        targets = [j for j in targets if all(i["op"] in ok_ops for i in tbs[j].code)]
+                        self.unpark_targets.add(None)
                     if targets:
-                        tb.add(unpark(rng.choice(targets)))
+                        tgt = rng.choice(targets)
+                        self.unpark_targets.add(tgt)
+                        tb.add(unpark(tgt))
                 elif w == "notify":
                     tb.add(I("notify", "nt"))
                 elif w == "nwait":
@@ -436,7 +458,7 @@ def syncmix(tier, seed, avoid=()):
     mixes = [["atom", "mutex"], ["atom", "mutex", "try"], ["atom", "rw", "try"], ["chan", "atom"], ["chan", "park"],
              ["park", "atom"], ["notify", "atom"], ["mutex", "cv"], ["mutex", "cv", "atom"], ["arc", "atom"],
              ["arc", "mutex"], ["atom", "mutex", "chan", "park", "notify"], ["atom"], ["chan", "notify", "mutex"],
-             ["rw", "atom", "mutex"], ["yield", "atom", "mutex"]]
+             ["rw", "atom", "mutex"]]
     # directed core: the property's own example and the shapes of the open completeness findings
     progs.append(wrap([[st("x", 1, "sc"), ld("x", "sc")], [ld("x", "sc"), st("x", 2, "sc")]], [], name="C01-example"))
     progs.append(P("F13-trylock-held", SJ(2) + JJ(2), CS("m", ld("x")), [L("trylock", "m"), br(1, 1, 1), L("unlock", "m")]))
